@@ -109,6 +109,35 @@ pub fn brakedown_ref_distance<T: CanonicalSerialize>(ck: &T) -> Result<(usize, u
     Ok((m.rho_inv.1 * m.beta.0, m.rho_inv.0 * m.beta.1))
 }
 
+/// A verifier key with one parameter changed ("wf": the well-formedness flag flipped, "sec": another
+/// security parameter), built through the canonical encoding.
+pub fn tweak_ligero_vk<T: CanonicalSerialize + CanonicalDeserialize>(vk: &T, what: &str, seed: u64) -> Option<T> {
+    let mut m: MLigeroParams = mirror(vk).ok()?;
+    match what {
+        "wf" => m.check_well_formedness = !m.check_well_formedness,
+        "sec" => m.sec_param = other_sec(m.sec_param, seed),
+        _ => return None,
+    }
+    mirror::<MLigeroParams, T>(&m).ok()
+}
+pub fn tweak_brakedown_vk<T: CanonicalSerialize + CanonicalDeserialize>(vk: &T, what: &str, seed: u64) -> Option<T> {
+    let mut m: MBrakedown = mirror(vk).ok()?;
+    match what {
+        "wf" => m.check_well_formedness = !m.check_well_formedness,
+        "sec" => m.sec_param = other_sec(m.sec_param, seed),
+        _ => return None,
+    }
+    mirror::<MBrakedown, T>(&m).ok()
+}
+fn other_sec(sec: usize, seed: u64) -> usize {
+    let d = 1 + (seed % 9) as usize;
+    if seed % 2 == 0 || sec <= d {
+        sec + d
+    } else {
+        sec - d
+    }
+}
+
 /// Re-interpret a value as another type with the same canonical encoding.
 pub fn mirror<A: CanonicalSerialize, B: CanonicalDeserialize>(a: &A) -> Result<B, String> {
     let bytes = ser(a);
@@ -122,6 +151,8 @@ pub trait Lin: Scheme<F = Fr> {
     fn distance(ck: &Ck<Self>) -> (usize, usize);
     /// the code's relative distance derived from the parameter fields by the harness
     fn ref_distance(ck: &Ck<Self>) -> Result<(usize, usize), String>;
+    /// verifier key with one parameter changed (see `tweak_ligero_vk`)
+    fn tweak_vk(vk: &Vk<Self>, what: &str, seed: u64) -> Option<Vk<Self>>;
     /// the distance every harness-side computation uses (falls back to the library's report only if the
     /// parameters cannot be mirrored)
     fn dist(ck: &Ck<Self>) -> (usize, usize) {
@@ -135,7 +166,7 @@ pub trait Lin: Scheme<F = Fr> {
 }
 
 macro_rules! lin_impl {
-    ($s:ty, $enc:ty, $pv:expr, $rd:expr) => {
+    ($s:ty, $enc:ty, $pv:expr, $rd:expr, $tw:expr) => {
         impl Lin for $s {
             type Enc = $enc;
             fn sec_param(ck: &Ck<Self>) -> usize {
@@ -146,6 +177,9 @@ macro_rules! lin_impl {
             }
             fn ref_distance(ck: &Ck<Self>) -> Result<(usize, usize), String> {
                 ($rd)(ck)
+            }
+            fn tweak_vk(vk: &Vk<Self>, what: &str, seed: u64) -> Option<Vk<Self>> {
+                ($tw)(vk, what, seed)
             }
             fn wf(ck: &Ck<Self>) -> bool {
                 ck.check_well_formedness()
@@ -163,9 +197,9 @@ macro_rules! lin_impl {
     };
 }
 
-lin_impl!(ULigero, ULigeroEnc, |p: &Fr| vec![*p], ligero_ref_distance);
-lin_impl!(MLigero, MLigeroEnc, |p: &Vec<Fr>| p.clone(), ligero_ref_distance);
-lin_impl!(Brakedown, BrakedownEnc, |p: &Vec<Fr>| p.clone(), brakedown_ref_distance);
+lin_impl!(ULigero, ULigeroEnc, |p: &Fr| vec![*p], ligero_ref_distance, tweak_ligero_vk);
+lin_impl!(MLigero, MLigeroEnc, |p: &Vec<Fr>| p.clone(), ligero_ref_distance, tweak_ligero_vk);
+lin_impl!(Brakedown, BrakedownEnc, |p: &Vec<Fr>| p.clone(), brakedown_ref_distance, tweak_brakedown_vk);
 
 pub fn encode<S: Lin>(ck: &Ck<S>, msg: &[Fr]) -> Out<Vec<Fr>> {
     crate::util::guard(|| <S::Enc as LinearEncode<Fr, MTConfig, S::P, ColHasher>>::encode(msg, ck))
